@@ -433,6 +433,39 @@ def src_(n):
     return ast.unparse(n)
 
 
+def negative_slice_bounds(ctx, repo):
+    """LIN: `x[:len(x) - p]` is the first len(x)-p elements only while p <= len(x); for p > len(x) the bound is negative and numpy counts it
+    from the END (wrap-around): windows appear for trajectories shorter than the lag, where there must be none.  `range(0, len(x) - p)`
+    is empty for a negative stop, a slice is not."""
+    import ast
+    from ..astutil import Canon
+    mod = repo.module("molgri.molecules.transitions")
+    bad, n_sites = [], 0
+    for f in [f_ for n_, f_ in mod.functions.items() if n_.split(".")[-1] in ("window", "noncorr_window")]:
+        params = set(f.params())
+        cn = Canon(Canon.single_defs(f.node.body))
+        guards = [g for g in ast.walk(f.node) if isinstance(g, (ast.If, ast.Assert)) and "len(" in src_(g.test)]
+        for sub in [n for n in ast.walk(f.node) if isinstance(n, ast.Subscript) and isinstance(n.slice, ast.Slice)]:
+            for bound in (sub.slice.upper, sub.slice.lower):
+                if bound is None:
+                    continue
+                b = cn.expand(bound)
+                if isinstance(b, ast.BinOp) and isinstance(b.op, ast.Sub) and isinstance(b.left, ast.Call) and src_(b.left.func) == "len" and \
+                        isinstance(b.right, ast.Name) and b.right.id in params:
+                    n_sites += 1
+                    guarded = any(b.right.id in src_(g.test) for g in guards)
+                    if not guarded:
+                        bad.append((f, sub, b))
+    ctx.instance("LIN", n_sites + 1)
+    for f, sub, b in bad:
+        ctx.violate("LIN", "C12.window.negative_bound", f"the slice bound `{src_(b)}` becomes negative when the lag exceeds the length of the "
+                    "trajectory, and a negative slice bound counts from the end: windows that wrap around the end of the trajectory are "
+                    "produced where there must be none", f.where, src_(sub)[:140],
+                    witness="len(seq) = 10, tau = 12: seq[:-2] has 8 elements, paired with np.roll(seq, -12)")
+    if not bad:
+        ctx.ok("LIN", "C12.window.negative_bound", "no slice bound of the form len(x) - lag without a guard on the lag", "molgri/molecules/transitions.py:window")
+
+
 def blocked_stride(ctx, repo):
     """STRIDE (blocks): windows at k = 0, s, 2s, ... taken block-wise as `seq[a:b:s]` for block starts a = 0, B, 2B, ... are at the
     right positions only if every block start is a multiple of the stride, i.e. if B is a multiple of s.  A block size that does not
@@ -479,6 +512,7 @@ def run(ctx, repo, tier):
         analyse_mode(ctx, repo, noncorr)
     stride_after_filter(ctx, repo)
     blocked_stride(ctx, repo)
+    negative_slice_bounds(ctx, repo)
     # get_all_tau_transition_matrices forwards the mode flag unchanged
     fa = repo.func("molgri.molecules.transitions", "MSM.get_all_tau_transition_matrices")
     ctx.analysed(fa)
